@@ -385,7 +385,9 @@ class Machine(object):
         if len(data) > B:
             self.problem("command_exceeds_buffer", "payload longer than the advertised buffer: " + what)
         if cmd == CMD_SVER:
-            return (((x << 24) | (y << 16) | (p << 8) | p), (133 << 16) | B, 0x5a5a0001), b"SC&MP/SpiNNaker\0"
+            # (an application core's run-time may advertise another buffer than the monitor that executes the memory commands)
+            adv = self.app_buffer_size if (p != 0 and getattr(self, "app_buffer_size", None)) else B
+            return (((x << 24) | (y << 16) | (p << 8) | p), (133 << 16) | adv, 0x5a5a0001), b"SC&MP/SpiNNaker\0"
         if cmd in (CMD_READ, CMD_WRITE):
             if a2 > B:
                 self.problem("command_exceeds_buffer", "length beyond the advertised buffer: " + what)
